@@ -423,6 +423,9 @@ func (w *c15World) runContent(r *Rec, kind string, c govtypes.Content, decodable
 	var herr error
 	hp, hm := safely(func() { herr = handler(cacheCtx, c) })
 	res.h, res.hmsg = c15oc(hp, herr), hm
+	if res.v == "ok" && decodable {
+		w.gasFillRuns(r, kind, c, res.h) // on the same pre-state, before anything is committed
+	}
 	if res.v == "ok" && res.h == "ok" {
 		write()
 	}
@@ -442,6 +445,69 @@ func (w *c15World) runContent(r *Rec, kind string, c govtypes.Content, decodable
 		}
 	}
 	return res
+}
+
+// Begin/EndBlock code runs under the block's gas meter: FINITE when consensus_params.block.max_gas > 0 (the repo's init.sh sets
+// 10000000), and already filled by the block's transactions when EndBlock executes a passed proposal.  A block-phase step must behave
+// the same at every fill level (in particular it must not panic with ErrorOutOfGas, which only runTx recovers).
+const c15BlockGasLimit = uint64(10000000)
+
+var c15GasFills = []struct {
+	name string
+	used uint64
+}{{"empty", 0}, {"half", c15BlockGasLimit / 2}, {"limit-1000", c15BlockGasLimit - 1000}, {"limit-1", c15BlockGasLimit - 1}, {"full", c15BlockGasLimit}}
+
+func c15FilledMeter(used uint64) sdk.GasMeter {
+	m := sdk.NewGasMeter(c15BlockGasLimit)
+	if used > 0 {
+		m.ConsumeGas(used, "transactions of the block")
+	}
+	return m
+}
+
+// like safely, but also says whether the panic value is the sdk's out-of-gas / gas-overflow error
+func c15SafelyGas(f func()) (panicked bool, msg string, outOfGas bool) {
+	defer func() {
+		if r := recover(); r != nil {
+			panicked, msg = true, fmt.Sprint(r)
+			switch r.(type) {
+			case sdk.ErrorOutOfGas, sdk.ErrorGasOverflow:
+				outOfGas = true
+				msg = fmt.Sprintf("%T%v", r, r)
+			}
+		}
+	}()
+	f()
+	return
+}
+
+// gasFillRuns re-executes the handler, on throw-away cache contexts, under a finite block gas meter at every fill level and compares
+// the outcome class with the one observed under the harness' default (nil) meter.
+func (w *c15World) gasFillRuns(r *Rec, kind string, c govtypes.Content, base string) {
+	handler := w.app.GovKeeper.Router().GetRoute(c.ProposalRoute())
+	for _, fl := range c15GasFills {
+		cc, _ := w.ctx.WithBlockGasMeter(c15FilledMeter(fl.used)).CacheContext()
+		var herr error
+		hp, hm, oog := c15SafelyGas(func() { herr = handler(cc, c) })
+		got := c15oc(hp, herr)
+		r.Count("gasfill." + kind + "." + fl.name)
+		if got == base {
+			continue
+		}
+		if got == "panic" {
+			cls := c15class(hm)
+			if oog {
+				cls = "out-of-gas"
+			}
+			r.Find(Finding{Sig: "C15:block-phase-panic:" + cls + ":endblock-proposal:" + kind + ":" + fl.name,
+				What: "the handler of a validated " + kind + " proposal panics when gov.EndBlocker executes it in a block whose gas meter is finite (max_gas = 10000000) and " + fl.name + ": " + hm,
+				Ops:  append([]string{}, w.hist...), Obs: "under the default meter h=" + base + ", with the block gas meter " + fl.name + " h=panic (" + hm + ")", Req: "Begin/EndBlock code does not depend on the block gas meter and never panics"})
+		} else {
+			r.Find(Finding{Sig: "C15:block-phase-gas-dependence:endblock-proposal:" + kind + ":" + fl.name,
+				What: "the outcome of a validated " + kind + " proposal depends on the block gas meter", Ops: append([]string{}, w.hist...),
+				Obs: "default meter h=" + base + ", block gas meter " + fl.name + " h=" + got, Req: "same outcome at every fill level"})
+		}
+	}
 }
 
 // wire round trip of a proposal content, as it is stored by gov and loaded in EndBlocker
@@ -1148,8 +1214,18 @@ func TestC15(t *testing.T) {
 	// rvesting parameter validation + BeginBlocker run outside transaction recovery too: drive them through the
 	// C20 machinery (`bb <c20 op>` lines; the C15 Lean driver delegates them to the C20 model)
 	bw := newC20World()
+	nbb := 0
 	runBB := func(h []string) {
 		for _, op := range h {
+			if op == "block" { // rvesting BeginBlocker under the block's gas meter: nil, or finite at one of the fill levels
+				nbb++
+				if k := nbb % (len(c15GasFills) + 1); k < len(c15GasFills) {
+					bw.ctx = bw.ctx.WithBlockGasMeter(c15FilledMeter(c15GasFills[k].used))
+					r.Count("bb.gasfill." + c15GasFills[k].name)
+				} else {
+					bw.ctx = bw.ctx.WithBlockGasMeter(nil)
+				}
+			}
 			out := bw.apply(r, op)
 			r.Op("bb "+op, out)
 			if out == "panic" {
